@@ -226,7 +226,7 @@ SPEC = {
     'oracle': oracle,
     'compare': compare,
     'shrink_oracle': shrink_oracle,
-    'timeouts': {'ptot': 40, 'sx': 120},
+    'timeouts': {'ptot': 1500, 'sx': 600},   # hangs are detected per case by the harness watchdog (20 s), not by this batch limit
     'nontrivial': nontrivial,
     'rule': 'theorems: the s-expression layer model is total (no panic site reachable, fuel suffices), spans are inside the text '
             'and char-aligned, accepted variable tables resolve within |vars| hops; correspondence: model == kanata_parser::cfg::sexpr '
